@@ -122,7 +122,9 @@ Step(o, ev, C) ==
       \* ---- user commands
       isCmd(e, c) == ev.a = (IF e = "S" THEN "S_Cmd" ELSE "R_Cmd") /\ ev.c = c /\ ev.res = "ok"
       susp2 == [e \in Ents |-> IF isCmd(e, "Suspend") THEN TRUE
-                               ELSE IF isCmd(e, "Resume") THEN FALSE ELSE o.susp[e]]
+                               ELSE IF isCmd(e, "Resume") THEN FALSE
+                               \* a freshly spawned receive transaction is not suspended
+                               ELSE IF e = "R" /\ ev.rinc # o.rinc THEN FALSE ELSE o.susp[e]]
       cancel2 == [e \in Ents |-> o.cancel[e] \/ isCmd(e, "Cancel")]
       cancelNow == \E e \in Ents : isCmd(e, "Cancel")
 
@@ -213,9 +215,9 @@ Step(o, ev, C) ==
       ownerK(k) == IF k = "eof" THEN "S" ELSE "R"
       \* progress that resets the count
       \* progress that resets the count
-      resetK(k) == IF k = "eof" THEN (Delivered(ev, "S", "ACK") /\ ev.pin.of = "EOF") \/ cancelNow
+      resetK(k) == IF k = "eof" THEN (Delivered(ev, "S", "ACK") /\ ev.pin.of = "EOF") \/ isCmd("S", "Cancel")
                                       \/ (\E x \in faultInds : x.e = "S")
-                   ELSE IF k = "fin" THEN spawned \/ cancelNow \/ (\E x \in faultInds : x.e = "R")
+                   ELSE IF k = "fin" THEN spawned \/ isCmd("R", "Cancel") \/ (\E x \in faultInds : x.e = "R")
                                           \/ (finOut # {} /\ o.finPdu.set /\ (CHOOSE q \in finOut : TRUE).cond # o.finPdu.cond)
                    ELSE spawned
       \* a resume may or may not reset the count (the receiver resets, the sender restarts)
